@@ -303,7 +303,7 @@ class HostileRun:
         if same is not None and not case:
             # (every broadcast of that kind goes to every member: quadratic work; the 300-member versions are
             # deterministic cases with their own wall limit)
-            n = min(n, 60 if same == C.ALL_MESSAGE_TYPES else 120)
+            n = min(n, 40 if same == C.ALL_MESSAGE_TYPES else 101)
         group = []
         for i in range(n):
             a = Actor(self.w, f"b{self.n_act}")
